@@ -23,7 +23,7 @@ from ..mbworld import MailboxWorld
 
 OBS_NAMES = ["NoInternal", "DocVerdict", "OnceEach", "Causal", "VersionsFirst", "LateGets", "InOrderOnce",
              "VersionsHonest", "AllDelivered", "KeyEstablished", "ClosedOnce", "NothingAfter", "Verdict", "Freed",
-             "CloseCompletes", "KeyAgree"]
+             "CloseCompletes", "KeyAgree", "OnlyOneCode"]
 
 # which observer predicates decide which property
 DECIDES = {
@@ -34,6 +34,7 @@ DECIDES = {
     "C09": ["AllDelivered", "KeyEstablished", "OnceEach", "InOrderOnce"],
     "C14": ["NoInternal", "DocVerdict"],
     "C18": ["OnceEach", "Causal", "VersionsFirst", "LateGets"],
+    "C19": ["OnlyOneCode", "NoInternal"],
 }
 
 MODEL_INVARIANTS = {
@@ -44,6 +45,7 @@ MODEL_INVARIANTS = {
     "C09": ["InOrderOnce", "OnceEach"],
     "C14": ["NoInternalError", "DocumentedVerdict"],
     "C18": ["OnceEach", "CausalOrder", "VersionsFirst"],
+    "C19": ["OnceEach", "NoInternalError"],
 }
 
 BASE = dict(Clients={"A", "B"}, Sides={"A", "B", "X"}, Nameplates={"4", "5"},
@@ -119,6 +121,11 @@ def cfgs_for(prop, tier):   # noqa: F811  (replaces the draft above)
                                     ReentKinds={"welcome", "code", "key", "verifier", "versions", "message"})
             out["errors"] = mk(AllowClose={"A", "B"}, WelcomeErr=True, ConnFails=True)
             out["drops_dups"] = mk(AllowClose={"A"}, MaxDrops=F(1, 1), MaxDup=1, MaxSend=F(1, 0))
+    elif prop == "C19":
+        bad = Raw('[c \\in {"A","B"} |-> IF c = "A" THEN {<<"4", "w">>, <<"x", "w">>, <<"4", "sp ace">>} ELSE {<<"4", "w">>}]')
+        out["code_calls"] = mk(CodeChoices=bad, AllowAllocate={"A"}, AllowInput={"A"}, MaxHelper=2)
+        if not q:
+            out["input_orders"] = mk(CodeChoices=bad, AllowInput={"A", "B"}, MaxHelper=4)
     elif prop == "C01":
         out["codes"] = mk(CodeChoices=codesB, MaxSend=F(1, 1))
         out["appids"] = mk(AppId=Raw('[c \\in {"A","B"} |-> IF c = "A" THEN "app" ELSE "app2"]'), MaxSend=F(1, 0))
@@ -145,6 +152,9 @@ def gen_cfg(prop):
         d.update(MaxTamper=2, AllowClose=set(), WelcomeErr=False, ConnFails=False)
     if prop in ("C03", "C09"):
         d.update(AllowClose=set(), WelcomeErr=False, ConnFails=False)
+    if prop == "C19":
+        d.update(CodeChoices=Raw('[c \\in {"A","B"} |-> {<<"4", "w">>, <<"x", "w">>, <<"4", "sp ace">>}]'),
+                 AllowAllocate={"A", "B"}, AllowInput={"A", "B"}, MaxHelper=6, MaxDrops=F(1, 1), WelcomeErr=False, ConnFails=False)
     if prop == "C14":
         d.update(LateFrames=True, AllowInput={"B"}, MaxHelper=5, Mode=DELEG, ReentKinds={"welcome", "code", "key", "verifier", "versions", "message"})
     return d
@@ -462,10 +472,14 @@ def run_trace_validation(wd, lines, ntraces):
 
 
 def run(prop, tier):
-    seed = common.seed()
-    rng = random.Random(seed * 1000003 + hash(prop) % 1000)
     v = common.Verdict(prop, tier)
-    quick = tier == "quick"
+    cov = run_pipeline(prop, tier, v, tier == "quick")
+    return v.finish(cov, assumptions=ASSUMPTIONS)
+
+
+def run_pipeline(prop, tier, v, quick):
+    seed = common.seed()
+    rng = random.Random(seed * 1000003 + sum(map(ord, prop)))
     cov = {"tlc_configs": {}, "samples": [], "drift": [], "unconfirmed_counterexamples": []}
     records, lines, runs = [], [], {}
     tid = 0
@@ -577,7 +591,7 @@ def run(prop, tier):
         for rec in records[:2] + records[-1:]:
             cov["samples"].append({"origin": rec.get("origin"), "schedule": runs[rec["tid"]].schedule[:60],
                                    "events": {c: [e["k"] + ":" + e["v"] for e in rec["cl"][c]["ev"]] for c in rec["cl"]}})
-    return v.finish(cov, assumptions=ASSUMPTIONS)
+    return cov
 
 
 ASSUMPTIONS = [
